@@ -508,6 +508,8 @@ def run_check(check_id, tier="quick", verif_seed=1, repo="/repo", workers=None, 
         what = known.get(sig, {}).get("what", sig)
         lines.append(f"KNOWN-FINDING: property={check_id} {what}")
 
+    if hasattr(mod, "post_check"):
+        harness_errors.extend(mod.post_check(agg))
     if agg["double_mismatch"]:
         harness_errors.append(f"non-deterministic runs at seed indices {agg['double_mismatch'][:10]}")
 
